@@ -8,6 +8,13 @@
 //! reconciler and the hub daemon (L3) build on: both start from the same
 //! `MetaMap` diff and reuse atomic delivery for concurrency-safe writes.
 
+#[cfg(paiml_copia_verif)]
+#[allow(unused_imports)]
+use copia_simworld::shim::{fs2, std, tokio};
+#[cfg(paiml_copia_verif)]
+#[allow(unused_imports)]
+use copia_simworld::{eprintln, println};
+
 use super::dir_sync::{create_local_dirs, transfer_file_from_remote, TransferProgress};
 use super::meta::{discover_local_with_meta, discover_remote_with_meta, set_local_mtime};
 use super::plan::{build_plan, MetaMap, SyncPlan};
